@@ -295,7 +295,13 @@ def run_ifc_case(sh, case):
   fname = os.path.join(os.getcwd(), f"wave_ifc_{sh.idx}_{case}")
   try:
     top = mod.Top(); top.elaborate()
-    top.apply(DefaultPassGroup(vcdwave=fname, textwave=True))
+    if rng.random() < 0.4:
+      # the plain pass group for designs without cyclic groups, with both records requested through the metadata keys
+      from pymtl3.passes.PassGroups import SimpleSimPass
+      top.set_metadata(VcdGenerationPass.vcd_file_name, fname); top.set_metadata(PrintTextWavePass.enable, True)
+      top.apply(SimpleSimPass()); sh.count("ifc_designs_under_SimpleSimPass")
+    else:
+      top.apply(DefaultPassGroup(vcdwave=fname, textwave=True))
     live = M.Live(top)
     paths = sorted(sigs)
     snaps = []
